@@ -457,7 +457,11 @@ type webServer struct {
 // given into an <svg> element, so the web UI's graph page is served and its body shows the graph description the
 // handler composed for THIS request
 func fakeDot() {
-	dir, err := os.MkdirTemp("", "c10-dot-")
+	base := "" // inside the run's scratch directory when the check runs it (next to, not inside, pprof's own temp dir)
+	if t := os.Getenv("PPROF_TMPDIR"); t != "" {
+		base = filepath.Dir(t)
+	}
+	dir, err := os.MkdirTemp(base, "c10-dot-")
 	if err != nil {
 		run.Infra(err.Error())
 		return
